@@ -29,6 +29,47 @@ pub fn compile_both(text: &str) -> Stage {
     r.unwrap_or(Stage::Panic)
 }
 
+/// One published range contains the other, and in the model with the wider range the rows confine the variable to the
+/// tighter range (up to 1e-9) all the same.
+fn range_implied_by_rows(pl: &LinearModel, ul: &LinearModel, v: &str, a: (f64, f64), b: (f64, f64)) -> bool {
+    use crate::lin::XLin;
+    use crate::lp::{LpAnswer, solve_lp};
+    use crate::rat::*;
+    use num_traits::Signed;
+    let (wide_model, tight) = if a.0 <= b.0 && a.1 >= b.1 {
+        (pl, b)
+    } else if b.0 <= a.0 && b.1 >= a.1 {
+        (ul, a)
+    } else {
+        return false;
+    };
+    let Ok(x) = XLin::from_rooc(wide_model) else { return false };
+    let Some(j) = x.index_of(v) else { return false };
+    for maximize in [false, true] {
+        let bound = if maximize { tight.1 } else { tight.0 };
+        let Some(bq) = q(bound) else { continue };
+        let mut lp = x.to_lp();
+        lp.c = vec![zero(); lp.vars.len()];
+        lp.c[j] = one();
+        lp.c0 = zero();
+        lp.maximize = maximize;
+        for var in lp.vars.iter_mut() {
+            var.int = false; // the relaxation bounds the range from outside
+        }
+        let slack = pow10_neg(9) * qmax(&one(), &bq.abs());
+        match solve_lp(&lp) {
+            Ok(LpAnswer::Infeasible) => return true,
+            Ok(LpAnswer::Optimal { value, .. }) => {
+                if (maximize && value > &bq + &slack) || (!maximize && value < &bq - &slack) {
+                    return false;
+                }
+            }
+            _ => return false,
+        }
+    }
+    true
+}
+
 fn close9(a: f64, b: f64) -> bool {
     a == b || (a - b).abs() <= 1e-9 * a.abs().max(b.abs()).max(1.0)
 }
@@ -51,6 +92,13 @@ pub fn same_expansion(pm: &Model, pl: &LinearModel, um: &Model, ul: &LinearModel
         let (lb, hb, kb) = crate::lin::vt_bounds(b);
         // derived bounds are sums of the same terms in a different order: equal to 1e-9
         if ka != kb || !(close9(la, lb) || la == lb) || !(close9(ha, hb) || ha == hb) {
+            // a coefficient that differs in its last bit (an average summed in another order) can move a derived bound
+            // across a declared one, and the published range then jumps (Real(3.75, 6) against Real(3.75, 3.75)) although
+            // the rows say the same: the wider range is accepted when the rows of its own model keep the variable inside the
+            // tighter one anyway
+            if ka == kb && range_implied_by_rows(pl, ul, v, (la, ha), (lb, hb)) {
+                continue;
+            }
             return Err(("domain-differs".into(), format!("{v}: {a} vs {b}")));
         }
     }
